@@ -244,11 +244,12 @@ func (vc14ErrColl) Collect(context.Context, error) {}
 
 // vc14Storage serves what the harness scripts for the next Profiles call.
 type vc14Storage struct {
-	next func(req *StorageProfilesRequest) (*StorageProfilesResponse, error)
+	next   func(req *StorageProfilesRequest) (*StorageProfilesResponse, error)
+	create func(req *StorageCreateAutoDeviceRequest) (*StorageCreateAutoDeviceResponse, error)
 }
 
-func (s *vc14Storage) CreateAutoDevice(context.Context, *StorageCreateAutoDeviceRequest) (*StorageCreateAutoDeviceResponse, error) {
-	panic("not used")
+func (s *vc14Storage) CreateAutoDevice(_ context.Context, req *StorageCreateAutoDeviceRequest) (*StorageCreateAutoDeviceResponse, error) {
+	return s.create(req)
 }
 
 func (s *vc14Storage) Profiles(_ context.Context, req *StorageProfilesRequest) (*StorageProfilesResponse, error) {
@@ -291,8 +292,8 @@ func vc14Check(t *rapid.T, hist []string, what string, w vc14Want, p *agd.Profil
 
 func TestVerifC14StateMachine(t *testing.T) {
 	st := vstat.New("C14", "profiledb.statemachine",
-		"rapid state machine: backend mutations (attach/detach/move device, change or swap linked and dedicated IPs and human IDs, delete profile, toggle auto-devices), full / partial / failed syncs, lookups by all four keys, and explicit scheduling points for the parked clean-up goroutines (GOMAXPROCS(1)); non-trivial = a key changed owner (or lost it) between two syncs and was looked up in between; distinct by history hash",
-		"stale-lookup-then-sync-then-cleanup", "owner-changed", "partial-sync", "full-sync", "lookup-found", "lookup-stale")
+		"rapid state machine: backend mutations (attach/detach/move device, change or swap linked and dedicated IPs and human IDs, delete profile, toggle auto-devices), automatic device creation with or without a synchronisation landing during the backend call, full / partial / failed syncs, lookups by all four keys, and explicit scheduling points for the parked clean-up goroutines (GOMAXPROCS(1)); non-trivial = a key changed owner (or lost it) between two syncs and was looked up in between; distinct by history hash",
+		"stale-lookup-then-sync-then-cleanup", "owner-changed", "partial-sync", "full-sync", "lookup-found", "lookup-stale", "auto-device-created", "sync-during-auto-device-creation")
 	st.Finish(t)
 
 	old := runtime.GOMAXPROCS(1)
@@ -317,6 +318,7 @@ func TestVerifC14StateMachine(t *testing.T) {
 		}
 
 		var hist []string
+		autoN := 0
 		classes := map[string]bool{}
 		pendingStale := false // a lookup since the last yield may have spawned a clean-up
 		staleThenSync := false
@@ -478,7 +480,7 @@ func TestVerifC14StateMachine(t *testing.T) {
 
 		steps := rapid.IntRange(3, 24).Draw(t, "steps")
 		for i := 0; i < steps; i++ {
-			op := rapid.SampledFrom([]string{"attach", "detach", "move", "linked", "swapLinked", "ded", "human", "delProf", "auto",
+			op := rapid.SampledFrom([]string{"attach", "detach", "move", "linked", "swapLinked", "ded", "human", "delProf", "auto", "auto", "autoCreate", "autoCreate",
 				"partial", "partial", "full", "failed", "lookup", "lookup", "lookup", "yield", "yield"}).Draw(t, "op")
 			switch op {
 			case "attach":
@@ -628,6 +630,72 @@ func TestVerifC14StateMachine(t *testing.T) {
 				be.Profs[pid].Auto = !be.Profs[pid].Auto
 				be.touch(pid)
 				hist = append(hist, fmt.Sprintf("backend: %s auto-devices := %t", pid, be.Profs[pid].Auto))
+			case "autoCreate":
+				// A device is created for an extended human ID while, in some
+				// cases, a synchronisation lands during the backend call (the
+				// database holds no lock then).  The new device is not one of
+				// the keys that are looked up; what is judged is that every
+				// other key still answers as of the latest synchronisation.
+				var cands []agd.ProfileID
+				for _, pid := range vc14ProfIDs {
+					if kp := known.Profs[pid]; kp.Exists && !kp.Deleted && kp.Auto {
+						cands = append(cands, pid)
+					}
+				}
+
+				if len(cands) == 0 {
+					continue
+				}
+
+				pid := rapid.SampledFrom(cands).Draw(t, "autoProf")
+				during := rapid.SampledFrom([]string{"none", "delete-device", "delete-profile", "change-profile"}).Draw(t, "during")
+				fullDuring := rapid.Bool().Draw(t, "fullDuring")
+				autoN++
+				newID := agd.DeviceID(fmt.Sprintf("auto%04d", autoN))
+				stor.create = func(req *StorageCreateAutoDeviceRequest) (*StorageCreateAutoDeviceResponse, error) {
+					switch bp := be.Profs[pid]; {
+					case during == "delete-device" && len(bp.Devs) > 0 && !bp.Deleted:
+						d := bp.Devs[0]
+						be.detach(d)
+						delete(be.Devs, d)
+						hist = append(hist, fmt.Sprintf("  during the backend call: delete device %s, then sync", d))
+						sync(fullDuring, false)
+						classes["owner-changed"] = true
+						classes["sync-during-auto-device-creation"] = true
+					case during == "delete-profile" && bp.Exists && !bp.Deleted:
+						for _, d := range bp.Devs {
+							be.Devs[d].Linked = netip.Addr{}
+							be.Devs[d].Ded = nil
+						}
+
+						bp.Deleted = true
+						be.touch(pid)
+						hist = append(hist, fmt.Sprintf("  during the backend call: delete profile %s, then sync", pid))
+						sync(fullDuring, false)
+						classes["sync-during-auto-device-creation"] = true
+					case during == "change-profile" && bp.Exists && !bp.Deleted:
+						be.touch(pid)
+						hist = append(hist, fmt.Sprintf("  during the backend call: new version of profile %s, then sync", pid))
+						sync(fullDuring, false)
+						classes["sync-during-auto-device-creation"] = true
+					}
+
+					return &StorageCreateAutoDeviceResponse{Device: &agd.Device{
+						Auth:         &agd.AuthSettings{},
+						ID:           newID,
+						HumanIDLower: agd.HumanIDLower(strings.ToLower(string(req.HumanID))),
+						Name:         "v0",
+					}}, nil
+				}
+
+				hist = append(hist, fmt.Sprintf("create auto device %s in %s", newID, pid))
+				_, _, cerr := db.CreateAutoDevice(ctx, pid, agd.HumanID(fmt.Sprintf("Auto-%d", autoN)), agd.DeviceTypeOther)
+				if cerr != nil && !errors.Is(cerr, ErrProfileNotFound) {
+					t.Fatalf("history:\n%s\nCreateAutoDevice: %v", strings.Join(hist, "\n"), cerr)
+				}
+
+				classes["auto-device-created"] = true
+				lookups()
 			case "partial":
 				var dirty []string
 				for pid := range be.Dirty {
